@@ -8,4 +8,5 @@ CONSTANTS
   Tasks = {}
   DbInputs <- MCDbInputs
   StageInputs <- MCStageInputs
+  FirstInputs <- MCFirstInputs
 CHECK_DEADLOCK FALSE
